@@ -108,8 +108,10 @@ def drive_hop(kind, c, rng):
         shift = np.array([rng.gauss(0, 1) for _ in range(ndim)]) * float(np.linalg.norm(c["dir"]))
         for j in range(nst):
             tr.delP[:, j, j] = np.array([rng.gauss(0, 1) for _ in range(ndim)])
+        tiny = 10 ** rng.uniform(-13, -9) if rng.random() < 0.3 else 1.0          # just after a collapse / at the first steps the moments are tiny: the direction is still theirs
+        if tiny != 1.0: shift = shift * 0.0
         tr.delP[:, c["target"], c["target"]] = shift                      # direction = Re(delP_ss - delP_tt): only the difference matters
-        tr.delP[:, c["state"], c["state"]] = shift + np.array(c["dir"])
+        tr.delP[:, c["state"], c["state"]] = shift + np.array(c["dir"]) * tiny
         c = dict(c); c["dir"] = np.real(tr.delP[:, c["state"], c["state"]] - tr.delP[:, c["target"], c["target"]]).tolist()   # as rounded by the subtraction
     x_before = tr.position.copy()
     mom_before = (tr.delR.copy(), tr.delP.copy()) if kind == "afssh" else None
